@@ -835,24 +835,50 @@ Proof. unfold zlen, str_of_digits. rewrite map_length. reflexivity. Qed.
 Lemma zlen_repeat {A} (x : A) k : zlen (repeat x k) = Z.of_nat k.
 Proof. unfold zlen. rewrite repeat_length. reflexivity. Qed.
 
-(* the three layouts str() uses in the domain *)
+(* numeric value of a coefficient *)
+Lemma fold_zeros k x : fold_left (fun a d => a * 10 + d) (repeat 0 k) x = x * 10 ^ Z.of_nat k.
+Proof.
+  revert x. induction k as [|k IH]; intros x; [cbn; lia|].
+  cbn [repeat fold_left]. rewrite IH, Nat2Z.inj_succ, Z.pow_succ_r by lia. lia.
+Qed.
+Lemma coef_app_zeros ds k : coef (ds ++ repeat 0 k) = coef ds * 10 ^ Z.of_nat k.
+Proof. unfold coef. rewrite fold_left_app. apply fold_zeros. Qed.
+Lemma coef_strip l : coef (strip_zeros l) = coef l.
+Proof.
+  induction l as [|d l IH]; [reflexivity|]. cbn [strip_zeros]. destruct (d =? 0) eqn:E; [|reflexivity].
+  apply Z.eqb_eq in E. subst d. rewrite IH. reflexivity.
+Qed.
+Lemma coef_norm l : coef (norm_digits l) = coef l.
+Proof.
+  unfold norm_digits. rewrite <- (coef_strip l). destruct (strip_zeros l); reflexivity.
+Qed.
+Lemma all_zero_coef ds : forallb (fun d => d =? 0) ds = true -> coef ds = 0.
+Proof.
+  intros H. rewrite <- coef_strip. replace (strip_zeros ds) with (@nil Z); [reflexivity|].
+  induction ds as [|d ds IH]; [reflexivity|]. cbn [forallb] in H. apply andb_prop in H as [Hd Hs].
+  cbn [strip_zeros]. rewrite Hd. exact (IH Hs).
+Qed.
+
+(* the layouts format(v, 'f') uses *)
 Lemma number_format_shape ds e :
   dom_number (0, ds, e) = true ->
-  (e = 0 /\ number_format (0, ds, e) = str_of_digits ds) \/
+  (exists ip, number_format (0, ds, e) = str_of_digits ip /\ ip <> [] /\ all_digits ip = true /\ 0 <= e /\
+     coef (norm_digits ip) = coef ds * 10 ^ e /\ (e = 0 -> norm_digits ip = ds)) \/
   (exists ip fr, number_format (0, ds, e) = str_of_digits ip ++ DOT :: str_of_digits fr /\
      ip <> [] /\ all_digits ip = true /\ all_digits fr = true /\
      norm_digits (ip ++ fr) = ds /\ - zlen fr = e).
 Proof.
-  unfold dom_number. intros H. apply andb_prop in H as [H H4]. apply andb_prop in H as [H H3].
-  apply andb_prop in H as [_ Hc].
+  unfold dom_number. intros H. apply andb_prop in H as [_ Hc].
   assert (Hall : all_digits ds = true) by (unfold canonical_digits in Hc; apply andb_prop in Hc as [Hc _]; exact Hc).
-  assert (Hn : 0 < zlen ds).
-  { apply zlen_pos_nonempty. unfold canonical_digits in Hc. apply andb_prop in Hc as [_ Hc].
-    destruct ds; [discriminate|discriminate]. }
-  unfold number_format. cbn [Z.eqb]. change (0 =? 1) with false. cbv iota. cbn [app].
-  assert (Hdp : ((e <=? 0) && (-6 <? e + zlen ds)) = true) by lia. rewrite Hdp.
-  rewrite Z.eqb_refl, app_nil_r.
-  destruct (e + zlen ds <=? 0) eqn:E1.
+  assert (Hne : ds <> []).
+  { unfold canonical_digits in Hc. apply andb_prop in Hc as [_ Hc]. destruct ds; [discriminate|discriminate]. }
+  pose proof (zlen_pos_nonempty _ Hne) as Hn.
+  unfold number_format. change (0 =? 1) with false. cbv iota. cbn [app].
+  destruct ((0 <? e) && forallb (fun d => d =? 0) ds) eqn:Ez.
+  { (* zero with a positive exponent *)
+    apply andb_prop in Ez as [He Hz]. left. exists [0]. cbn. repeat split; try lia; try discriminate.
+    rewrite (all_zero_coef _ Hz). lia. }
+  destruct (e + zlen ds <? 0) eqn:E1.
   - right. exists [0], (repeat 0 (Z.to_nat (- (e + zlen ds))) ++ ds). unfold zrepeat.
     rewrite sd_app, sd_repeat. split; [reflexivity|]. split; [discriminate|]. split; [reflexivity|].
     split; [unfold all_digits; rewrite forallb_app; fold (all_digits (repeat 0 (Z.to_nat (- (e + zlen ds)))));
@@ -860,51 +886,87 @@ Proof.
     split; [change ([0] ++ repeat 0 (Z.to_nat (- (e + zlen ds))) ++ ds)
               with (repeat 0 (S (Z.to_nat (- (e + zlen ds)))) ++ ds); apply norm_zeros_canonical; exact Hc|].
     rewrite zlen_app, zlen_repeat. lia.
-  - destruct (zlen ds <=? e + zlen ds) eqn:E2.
-    + left. assert (e = 0) by lia. subst e. split; [reflexivity|].
-      unfold zrepeat. replace (Z.to_nat (0 + zlen ds - zlen ds)) with O by lia. cbn [repeat]. apply app_nil_r.
-    + right. exists (zfirstn (e + zlen ds) ds), (zskipn (e + zlen ds) ds).
-      split; [reflexivity|]. unfold zfirstn, zskipn.
-      assert (Hk : (0 < Z.to_nat (e + zlen ds) < length ds)%nat) by (unfold zlen in *; lia).
-      pose proof (firstn_skipn (Z.to_nat (e + zlen ds)) ds) as Hfs.
-      split; [intros Hnil; apply (f_equal (@length Z)) in Hnil; rewrite firstn_length in Hnil; cbn in Hnil; lia|].
-      unfold all_digits in *. rewrite <- Hfs, forallb_app in Hall. apply andb_prop in Hall as [Hf Hs].
-      split; [exact Hf|]. split; [exact Hs|]. rewrite Hfs.
-      split; [exact (norm_canonical _ Hc)|]. unfold zlen in *. rewrite skipn_length. lia.
+  - destruct (zlen ds <? e + zlen ds) eqn:E2.
+    + (* positive exponent, non-zero coefficient: digits then zeros *)
+      left. exists (ds ++ repeat 0 (Z.to_nat e)). unfold zrepeat.
+      replace (e + zlen ds - zlen ds) with e by lia. rewrite sd_app, sd_repeat.
+      split; [reflexivity|]. split; [destruct ds; [congruence|discriminate]|].
+      split; [unfold all_digits; rewrite forallb_app; fold (all_digits (repeat 0 (Z.to_nat e)));
+              rewrite all_digits_repeat, andb_true_r; exact Hall|].
+      split; [lia|]. split; [|lia].
+      rewrite coef_norm, coef_app_zeros. rewrite Z2Nat.id by lia. reflexivity.
+    + unfold zfirstn, zskipn.
+      destruct (e + zlen ds =? 0) eqn:E3.
+      * (* 0.digits *)
+        right. exists [0], ds. replace (Z.to_nat (e + zlen ds)) with O by lia. cbn [firstn skipn is_nil].
+        destruct ds as [|d0 ds']; [congruence|]. cbn [is_nil].
+        split; [reflexivity|]. split; [discriminate|]. split; [reflexivity|]. split; [exact Hall|].
+        split; [apply (norm_zeros_canonical 1); exact Hc|]. lia.
+      * destruct (e =? 0) eqn:E4.
+        -- (* integer *)
+           left. exists ds. assert (e = 0) by lia. subst e.
+           replace (Z.to_nat (0 + zlen ds)) with (length ds) by (unfold zlen; lia).
+           rewrite firstn_all, skipn_all. destruct ds as [|d0 ds']; [congruence|]. cbn [is_nil].
+           rewrite app_nil_r. split; [reflexivity|]. split; [discriminate|]. split; [exact Hall|].
+           split; [lia|]. rewrite (norm_canonical _ Hc). split; [lia|reflexivity].
+        -- right. exists (firstn (Z.to_nat (e + zlen ds)) ds), (skipn (Z.to_nat (e + zlen ds)) ds).
+           assert (Hk : (0 < Z.to_nat (e + zlen ds) < length ds)%nat) by (unfold zlen in *; lia).
+           pose proof (firstn_skipn (Z.to_nat (e + zlen ds)) ds) as Hfs.
+           assert (Hf : firstn (Z.to_nat (e + zlen ds)) ds <> []).
+           { intros Hnil. apply (f_equal (@length Z)) in Hnil. rewrite firstn_length in Hnil. cbn in Hnil. lia. }
+           assert (Hs : skipn (Z.to_nat (e + zlen ds)) ds <> []).
+           { intros Hnil. apply (f_equal (@length Z)) in Hnil. rewrite skipn_length in Hnil. cbn in Hnil. lia. }
+           destruct (firstn (Z.to_nat (e + zlen ds)) ds) as [|f0 fs] eqn:Ef; [congruence|].
+           destruct (skipn (Z.to_nat (e + zlen ds)) ds) as [|s0 ss] eqn:Es; [congruence|].
+           cbn [is_nil]. split; [reflexivity|]. split; [discriminate|].
+           unfold all_digits in *. rewrite <- Hfs, forallb_app in Hall. apply andb_prop in Hall as [Hfd Hsd].
+           split; [exact Hfd|]. split; [exact Hsd|]. rewrite Hfs.
+           split; [exact (norm_canonical _ Hc)|].
+           assert (Hl : length (s0 :: ss) = (length ds - Z.to_nat (e + zlen ds))%nat) by (rewrite <- Es; apply skipn_length).
+           unfold zlen in *. lia.
 Qed.
 
-Lemma number_roundtrip v : dom_number v = true -> number_parse (number_format v) = Ok v.
+(* what _parse_value reads back: numerically the same Decimal; the same (sign, digits, exponent) when
+   the exponent is not positive *)
+Lemma number_roundtrip v : dom_number v = true ->
+  exists w, number_parse (number_format v) = Ok w /\ dec_eqb v w = true /\
+            (dom_number_exact v = true -> w = v).
 Proof.
   destruct v as [[sg ds] e]. intros H.
   assert (Hs : sg = 0) by (unfold dom_number in H; lia). subst sg.
-  pose proof H as Hdom. unfold dom_number in H. apply andb_prop in H as [H _]. apply andb_prop in H as [H _].
-  apply andb_prop in H as [_ Hc].
-  destruct (number_format_shape ds e Hdom) as [[He Hf] | [ip [fr [Hf [Hne [Hip [Hfr [Hnorm He]]]]]]]].
-  - subst e. rewrite Hf. rewrite number_parse_int.
-    + rewrite digits_of_sd, (norm_canonical _ Hc). reflexivity.
-    + unfold canonical_digits in Hc. apply andb_prop in Hc as [_ Hc]. destruct ds; [discriminate|discriminate].
-    + apply sd_all_digits. unfold canonical_digits in Hc. apply andb_prop in Hc as [Hc _]. exact Hc.
-  - rewrite Hf. rewrite number_parse_dot.
-    + rewrite digits_of_str_app, !digits_of_sd, Hnorm, zlen_sd, He. reflexivity.
+  pose proof H as Hdom. unfold dom_number in H. apply andb_prop in H as [_ Hc].
+  destruct (number_format_shape ds e Hdom) as [[ip [Hf [Hne [Hip [He [Hcoef Hex]]]]]] | [ip [fr [Hf [Hne [Hip [Hfr [Hnorm He]]]]]]]].
+  - exists (0, norm_digits ip, 0). rewrite Hf. rewrite number_parse_int.
+    + rewrite digits_of_sd. split; [reflexivity|]. split.
+      * unfold dec_eqb. replace (Z.min e 0) with 0 by lia. rewrite Hcoef, !Z.sub_0_r.
+        change (10 ^ 0) with 1. rewrite Z.mul_1_r, !Z.eqb_refl. reflexivity.
+      * unfold dom_number_exact. intros Hx. assert (e = 0) by lia. subst e. rewrite (Hex eq_refl). reflexivity.
+    + destruct ip; [congruence|discriminate].
+    + apply sd_all_digits. exact Hip.
+  - exists (0, ds, e). rewrite Hf. rewrite number_parse_dot.
+    + rewrite digits_of_str_app, !digits_of_sd, Hnorm, zlen_sd, He. split; [reflexivity|]. split; [|reflexivity].
+      unfold dec_eqb. rewrite !Z.eqb_refl. reflexivity.
     + destruct ip; [congruence|discriminate].
     + apply sd_all_digits. exact Hip.
     + apply sd_all_digits. exact Hfr.
+Qed.
+Lemma number_roundtrip_exact v : dom_number_exact v = true -> number_parse (number_format v) = Ok v.
+Proof.
+  intros Hx. assert (Hd : dom_number v = true).
+  { destruct v as [[sg ds] e]. unfold dom_number_exact in Hx. unfold dom_number. lia. }
+  destruct (number_roundtrip v Hd) as [w [Hp [_ Hw]]]. rewrite Hp, (Hw Hx). reflexivity.
 Qed.
 Lemma number_lexr v : dom_number v = true -> lexr_number (number_format v) = Some [].
 Proof.
   destruct v as [[sg ds] e]. intros H.
   assert (Hs : sg = 0) by (unfold dom_number in H; lia). subst sg.
-  pose proof H as Hdom. unfold dom_number in H. apply andb_prop in H as [H _]. apply andb_prop in H as [H _].
-  apply andb_prop in H as [_ Hc].
-  destruct (number_format_shape ds e Hdom) as [[He Hf] | [ip [fr [Hf [Hne [Hip [Hfr [Hnorm He]]]]]]]].
-  - rewrite Hf. apply lexr_number_int.
-    + unfold canonical_digits in Hc. apply andb_prop in Hc as [_ Hc]. destruct ds; [discriminate|discriminate].
-    + apply sd_all_digits. unfold canonical_digits in Hc. apply andb_prop in Hc as [Hc _]. exact Hc.
-  - rewrite Hf. apply lexr_number_dot.
-    + destruct ip; [congruence|discriminate].
-    + apply sd_all_digits. exact Hip.
-    + apply sd_all_digits. exact Hfr.
+  destruct (number_format_shape ds e H) as [[ip [Hf [Hne [Hip _]]]] | [ip [fr [Hf [Hne [Hip [Hfr _]]]]]]].
+  - rewrite Hf. apply lexr_number_int; [destruct ip; [congruence|discriminate] | apply sd_all_digits; exact Hip].
+  - rewrite Hf. apply lexr_number_dot; [destruct ip; [congruence|discriminate] | |]; apply sd_all_digits; assumption.
 Qed.
+Lemma number_found_refuted :
+  exists v, dom_number v = true /\ lexr_number (number_format_str v) <> Some [].
+Proof. exists (0, [1], 3). split; [reflexivity | vm_compute; discriminate]. Qed.
 
 (* ---------------------------------------------------------------------------------------------- *)
 (* "the text is one lexeme": the recogniser's match is the whole text                             *)
